@@ -181,7 +181,7 @@ def c03b(F, R):
                 R.bad(key, f"`{short(m)}` is called from `{root_fn(caller)}` (owner {ot}), which is not a CFG-generation pass; allowed owners: {sorted(short(x) for x in edge_owner_types)}", t["sp"])
 
 
-@rule("C03", "C03.c.exit-ecalls", floor=3)
+@rule("C03", "C03.c.exit-ecalls", floor=2)
 def c03c(F, R):
     """program-exit ecalls are exactly {10, 93} and edges are cut only under that predicate"""
     ref = json.load(open(os.path.join(VERIF, "reference", "rars_ecalls.json")))
@@ -203,24 +203,44 @@ def c03c(F, R):
         raise Anchor("EcallTerminationPass not found")
     g = F.fn(et[0])
     muts = edge_mutators(F)
+    cgr = F.callgraph()
+
+    def reaches_mut(c, depth=0):
+        if c in muts:
+            return True
+        if depth >= 3 or c not in F.fns:
+            return False
+        return any(reaches_mut(q, depth + 1) for q in cgr.get(c, ()) if q in F.fns)
     guarded = set()
     for n in walk(g["hir"]["value"]):
         if n.get("k") == "If":
             c = peel(n["cond"])
             if c.get("k") == "MethodCall" and callee_of(c) == p:
                 for m in walk(n["then"]):
-                    if m.get("k") in ("MethodCall", "Call") and callee_of(m) in muts:
+                    if m.get("k") in ("MethodCall", "Call") and reaches_mut(callee_of(m)):
                         guarded.add(id(m))
     tot = 0
     for m in walk(g["hir"]["value"]):
-        if m.get("k") in ("MethodCall", "Call") and callee_of(m) in muts:
+        if m.get("k") in ("MethodCall", "Call") and reaches_mut(callee_of(m)):
             tot += 1
             if id(m) in guarded:
-                R.ok(f"cut|{short(callee_of(m))}")
+                R.ok(f"cut|{short(callee_of(m))}|{tot}")
             else:
                 R.bad(f"cut|{short(callee_of(m))}", "EcallTerminationPass mutates an edge outside `if node.is_program_exit()`", loc(m))
-    if tot < 2:
+    if tot < 1:
         R.bad("cut|none", "EcallTerminationPass no longer cuts edges at exit ecalls", g["sp"])
+    # helper functions of the pass that mutate edges are called only from the guarded sites above
+    oty = owner_type(F, et[0])
+    for i in F.impls:
+        if i["self_ty"] == oty:
+            for it in i["items"]:
+                hp = it["path"]
+                if hp != et[0] and hp in F.fns and reaches_mut(hp):
+                    cs = {root_fn(c) for c, bi, t in F.callers_of(hp)}
+                    if cs <= {et[0]}:
+                        R.ok(f"helper|{short(hp)}", detail=f"{short(hp)} is only called from run")
+                    else:
+                        R.bad(f"helper|{short(hp)}", f"edge-cutting helper {short(hp)} is also called from {sorted(cs - {et[0]})}", F.fn(hp)["sp"])
 
 
 @rule("C03", "C03.d.no-edge-after-jump", floor=5)
